@@ -36,6 +36,11 @@ def get_inherited(t: Type) -> Type:
     else:
         return Any  # type: ignore
 
+    # `Generic[T]` only declares the type variables - it is not something we inherit from
+    base_classes = [b for b in base_classes if get_origin(b) is not typing.Generic]  # type: ignore
+    if len(base_classes) == 0:
+        return Any  # type: ignore
+
     r = base_classes[0]  # type: ignore
 
     g_args = get_args(t)
